@@ -286,6 +286,26 @@ def check_c11(run):
             triage_c11(run, rep, low, c)
 
 
+def check_constructors(run, pid="C12"):
+    """The two SFINAE-selected constructors establish the representation invariant the tick / processUpdate contracts assume."""
+    for hc, hk in CONFIGS:
+        low = lowered(hc, hk)
+        n = len(low.methods.get("construct", []))
+        ob = run.prove(f"{pid}.cxx.constructors_found[u{int(hc)}c{int(hk)}]", [], z3.BoolVal(n == 2), function="cpp/runtime/include/formak/runtime/ManagedFilter.h (clang JSON AST -> pvc)")
+        if n != 2:
+            run.undecided.append(f"{ob.name}: {n} constructors with a body found (the contracts were written for two)")
+        for k in range(n):
+            c = cxxrt.Construct(low, k)
+            c.prefix = c.prefix.replace("C12.", pid + ".")
+            rep = run.verify(c, {})
+            rep.dropped |= low.dropped
+            for ob, model, definitive in driver.refuted(run, rep):
+                # natively: a filter constructed at a non-zero time must start moving from that time
+                good, why, steps = native_c10(hc, hk, 2.0, 2.23, 0.05)
+                run.native_runs += 1
+                run.findings.append(Finding(ob.name, "constructor", f"{ob.name} fails on the lowered constructor ({getattr(ob, 'note', '') or ''}); a filter constructed at t=2.0 and moved to 2.23: {why}", {"language": "c++", "configuration": {"has_control": hc, "has_calibration": hk}, "inputs": {"t0": 2.0, "t1": 2.23, "max_dt_sec": 0.05}}, not good, theory=ob.theory))
+
+
 def replay_c11(payload):
     cfg = payload["configuration"]
     inp = payload.get("inputs") or {"t0": 0.0, "max_dt_sec": 0.05, "ticks": [(0.3, [(0.1, 1), (0.25, 2)]), (0.2, None)]}
